@@ -25,9 +25,18 @@ ValidType(t) == ~(t.m = 1 /\ t.a = 0 /\ FALSE)
 MapOf(s) == [b |-> s.b, a |-> 0, m |-> 1, ia |-> s.a]     \* only for s.m = 0
 ArrOf2(s) == [s EXCEPT !.a = s.a + 1]
 
+(* a member that is itself a typed map cannot be projected through a typed map: a map of maps
+   is no type (through arrays it can) *)
+RECURSIVE ProjDefined(_, _, _)
+ProjDefined(p, t, path) ==
+    IF path = <<>> THEN TRUE
+    ELSE IF IsArr(t) THEN ProjDefined(p, Elem(t), path)
+    ELSE IF IsTMap(t) THEN ProjDefined(p, Elem(t), path) /\ ProjType(p, Elem(t), path).m = 0
+    ELSE ProjDefined(p, Lookup(Fields(p, t), Head(path)).t, Tail(path))
+
 RefRows == {[kind |-> "ref", t |-> t, s |-> s, path |-> <<>>, ok |-> Assignable(t, s)] : t \in Types, s \in Types}
 ProjRows == UNION {{[kind |-> "proj", t |-> t, s |-> s, path |-> p,
-                     ok |-> Assignable(t, ProjType(P, s, p))] : t \in Types, p \in PathsOf(s.b, 2)}
+                     ok |-> ProjDefined(P, s, p) /\ Assignable(t, ProjType(P, s, p))] : t \in Types, p \in PathsOf(s.b, 2)}
                    : s \in {x \in Types : StructBase(x)}}
 MapRows == {[kind |-> "maparr", t |-> t, s |-> s, path |-> <<>>, ok |-> Assignable(t, ArrOf2(s))] : t \in Types, s \in {x \in Types : x.a <= 1}}
            \cup {[kind |-> "mapmap", t |-> t, s |-> s, path |-> <<>>, ok |-> Assignable(t, MapOf(s))]
